@@ -369,6 +369,14 @@ func generate(w *world, thorough bool) []*Case {
 	for _, n := range []string{"blocktxn-wit", "blocktxn"} {
 		g.families(g.t(n), cmpct, "vp", false)
 	}
+	// transactions spending real P2PKH / P2WPKH / P2WSH / P2TR coins with every
+	// combination of good and bad signatures (verified by the node's main thread in
+	// parallel goroutines under txpool.TxMutex)
+	g.sigFamily(ready, thorough)
+	if thorough {
+		g.sigFamily(post, thorough)
+		g.sigFamily(cmpct, thorough)
+	}
 	// block-related commands while a full-block download from this peer is in flight
 	dl := g.ctx["dl"]
 	for _, n := range []string{"blocktxn", "block", "cmpctblock-missing"} {
@@ -494,6 +502,7 @@ type tally struct {
 	conns     int64
 	selfOK    int
 	dlOK      int
+	sigOK     map[string]int
 	usNet     int64
 	usNetMax  int64
 	usLib     int64
@@ -609,7 +618,7 @@ func main() {
 	}
 
 	t := &tally{perFamily: map[string]int{}, perCmd: map[string]int{}, perCtx: map[string]int{}, outcomes: map[string]int{}, nontriv: map[string]bool{},
-		violCases: map[string]int{}, firstCase: map[string]*Case{}, firstViol: map[string]*Violation{}, cands: map[string][]*Case{}}
+		violCases: map[string]int{}, firstCase: map[string]*Case{}, firstViol: map[string]*Violation{}, cands: map[string][]*Case{}, sigOK: map[string]int{}}
 	samples := &ev.Samples{N: 6}
 
 	nw := runtime.NumCPU()
@@ -663,6 +672,15 @@ func main() {
 				selfFail.Store(cs.Self + ": " + res.Outcome)
 			}
 			return
+		}
+		if cs.Kind == "net" && cs.Tmpl == "tx-signed" && strings.Contains(res.Outcome, " mp=1/") {
+			// an all-valid spend was accepted into the mempool: the reference-made
+			// signatures of these kinds really verify on the node
+			for _, k := range kindName {
+				if strings.Contains(cs.Family, k+":valid") && !strings.Contains(cs.Family, ":wrong") && !strings.Contains(cs.Family, ":empty") {
+					t.sigOK[k]++
+				}
+			}
 		}
 		if cs.Kind == "net" && cs.Ctx == "dl" && cs.Family == "valid" && cs.Tmpl == "ping" {
 			if !strings.Contains(res.Outcome, "sent_getdata") || !strings.Contains(res.Outcome, "bip=2") {
@@ -750,6 +768,14 @@ func main() {
 	if s := selfFail.Load(); s != nil {
 		cleanup()
 		ev.HarnessError("oracle self-test failed: %v", s)
+	}
+	if os.Getenv("C18_ONLY") == "" && !r.Capped && len(t.violCases) == 0 {
+		for _, k := range kindName {
+			if t.sigOK[k] == 0 {
+				cleanup()
+				ev.HarnessError("signature family is vacuous: no transaction with a valid %s input was accepted by the node", k)
+			}
+		}
 	}
 	if t.selfOK < 2 && os.Getenv("C18_ONLY") == "" && !r.Capped {
 		cleanup()
@@ -864,6 +890,7 @@ func main() {
 		"worker_deaths_in_batches": t.deaths,
 		"timing_disturbed_reruns":  t.disturbed,
 		"context_dl_established":   t.dlOK,
+		"signed_spends_accepted":   t.sigOK,
 		"oracle_selftests_passed":  t.selfOK,
 		"samples":                  samples.L,
 		"confirmation_runs":        confRuns,
